@@ -267,7 +267,7 @@ func checkC14(c *Ctx, r *Result, tier string) {
 			default:
 				// module helper receiving the text to scan (e.g. GetInfix): string parameter in first position after the receiver
 				if f := ci.Common().StaticCallee(); f != nil && c.modFuncSet[f] && c.PkgOf(f) == "interpreter" {
-					usesIndex := len(callSites(f, func(n string, _ ssa.CallInstruction) bool { return n == "strings.Index" })) > 0
+					usesIndex := len(callSites(f, func(n string, _ ssa.CallInstruction) bool { return markerSearch[n] })) > 0
 					if usesIndex {
 						for _, a := range ci.Common().Args {
 							if b, ok := a.Type().Underlying().(*types.Basic); ok && b.Kind() == types.String {
@@ -419,6 +419,33 @@ func suffixRank(v, P ssa.Value, depth int) int {
 			return rank
 		}
 	case *ssa.Extract:
+		// result i of a module helper that cuts its text parameter: every value it returns there is ""
+		// or a proper suffix of the parameter (cutInterpolation(rest) → …, remainder, found)
+		if call, ok := x.Tuple.(*ssa.Call); ok {
+			if h := call.Call.StaticCallee(); h != nil && len(h.Blocks) > 0 && h.Pkg != nil && !strings.HasPrefix(h.Pkg.Pkg.Path(), "strings") && depth < 6 {
+				for j, a := range call.Call.Args {
+					if j >= len(h.Params) || suffixRank(a, P, depth+1) < 1 {
+						continue
+					}
+					rank := 2
+					rvs := returnedValues(h, x.Index)
+					if len(rvs) == 0 {
+						rank = 0
+					}
+					for _, rv := range rvs {
+						if cs, isC := constString(rv); isC && cs == "" {
+							continue
+						}
+						if k := suffixRank(rv, h.Params[j], depth+1); k < rank {
+							rank = k
+						}
+					}
+					if rank > 0 {
+						return rank
+					}
+				}
+			}
+		}
 		if call, ok := x.Tuple.(*ssa.Call); ok && callName(call) == "strings.Cut" && x.Index == 1 {
 			if sep, ok := constString(call.Call.Args[1]); ok && sep != "" && suffixRank(call.Call.Args[0], P, depth+1) >= 1 {
 				// after is strictly shorter when found; when not found it is "" (also a strict suffix unless base is empty)
@@ -460,12 +487,34 @@ func c14Loop(c *Ctx, r *Result, fn *ssa.Function, rtIface *types.Interface) {
 	seenP := map[*ssa.Phi]bool{}
 	allInstrs(fn, func(in ssa.Instruction) {
 		call, ok := in.(*ssa.Call)
-		if !ok || !markerSearch[callName(call)] || !inLoop(in.Block()) {
+		if !ok || !inLoop(in.Block()) {
 			return
 		}
-		if p, ok := stripConv(call.Call.Args[0]).(*ssa.Phi); ok && isLoopHeaderPhi(p) && !seenP[p] {
-			seenP[p] = true
-			positions = append(positions, p)
+		var texts []ssa.Value
+		if markerSearch[callName(call)] {
+			texts = []ssa.Value{call.Call.Args[0]}
+		} else if h := call.Call.StaticCallee(); h != nil && c.inModule(h) && c.PkgOf(h) == "interpreter" {
+			// a helper that searches one of its string parameters
+			for j, prm := range h.Params {
+				if j >= len(call.Call.Args) {
+					break
+				}
+				searched := false
+				allInstrs(h, func(x ssa.Instruction) {
+					if hc, ok := x.(*ssa.Call); ok && markerSearch[callName(hc)] && stripConv(hc.Call.Args[0]) == ssa.Value(prm) {
+						searched = true
+					}
+				})
+				if searched {
+					texts = append(texts, call.Call.Args[j])
+				}
+			}
+		}
+		for _, t := range texts {
+			if p, ok := stripConv(t).(*ssa.Phi); ok && isLoopHeaderPhi(p) && !seenP[p] {
+				seenP[p] = true
+				positions = append(positions, p)
+			}
 		}
 	})
 	if len(positions) == 0 {
@@ -654,23 +703,32 @@ func c14Loop(c *Ctx, r *Result, fn *ssa.Function, rtIface *types.Interface) {
 			return
 		}
 		n := callName(call)
-		if !(strings.HasPrefix(n, "bytes.Buffer.Write") || strings.HasPrefix(n, "strings.Builder.Write") || strings.HasPrefix(n, "bytes.*Buffer.Write") || strings.HasPrefix(n, "strings.*Builder.Write")) {
-			return
+		var outVals []ssa.Value
+		if isBuiltinCall(call, "append") {
+			// the result collected as a list of pieces: parts = append(parts, text, value)
+			if sl, isSl := call.Type().Underlying().(*types.Slice); isSl {
+				if b, isB := sl.Elem().Underlying().(*types.Basic); isB && b.Kind() == types.String {
+					outVals = appendedElems(call)
+					n = "append"
+				}
+			}
+		} else if strings.HasPrefix(n, "bytes.Buffer.Write") || strings.HasPrefix(n, "strings.Builder.Write") || strings.HasPrefix(n, "bytes.*Buffer.Write") || strings.HasPrefix(n, "strings.*Builder.Write") {
+			if len(call.Call.Args) >= 2 {
+				outVals = []ssa.Value{call.Call.Args[1]}
+			}
 		}
-		args := call.Call.Args
-		if len(args) < 2 {
-			return
-		}
-		nOut++
-		site := ord.key(key, "output", n)
-		pos := c.Pos(c.InstrPos(in))
-		writeLoop = sccOf(in.Block())
-		if s := stale(args[1], map[ssa.Value]bool{}, 0); s != "" {
-			r.Instance("R14e", site, pos, "finding", "output depends on "+s, true)
-			r.Report(Finding{Rule: "R14e", Site: site, Pos: pos,
-				Msg: key + ": text written to the result inside the scan loop depends on " + s + " — an occurrence of {{expr}} is then not replaced by the value of evaluating it at that position (a repeated expression is evaluated once, a stale value is substituted)"})
-		} else {
-			r.Instance("R14e", site, pos, "ok", "written text derives from the literal, constants and calls made in this iteration only", true)
+		for _, ov := range outVals {
+			nOut++
+			site := ord.key(key, "output", n)
+			pos := c.Pos(c.InstrPos(in))
+			writeLoop = sccOf(in.Block())
+			if s := stale(ov, map[ssa.Value]bool{}, 0); s != "" {
+				r.Instance("R14e", site, pos, "finding", "output depends on "+s, true)
+				r.Report(Finding{Rule: "R14e", Site: site, Pos: pos,
+					Msg: key + ": text written to the result inside the scan loop depends on " + s + " — an occurrence of {{expr}} is then not replaced by the value of evaluating it at that position (a repeated expression is evaluated once, a stale value is substituted)"})
+			} else {
+				r.Instance("R14e", site, pos, "ok", "written text derives from the literal, constants and calls made in this iteration only", true)
+			}
 		}
 	})
 	r.Floor("R14e", nOut, 2)
